@@ -75,6 +75,52 @@ func (rn *runner) writeFaultPhase() {
 	}
 }
 
+// fsizePhase: genuine short writes (RLIMIT_FSIZE) in Transform's tail write and in Write.
+func (rn *runner) fsizeOne(call, old, nw string, k int) {
+	fo, err := runFsizeCase(rn.self, rn.f.Work, rn.m, call, old, nw, k)
+	if err != nil {
+		rn.res.Notes = append(rn.res.Notes, "short-write case skipped: "+err.Error())
+		return
+	}
+	key := fmt.Sprintf("%s %s %s k=%d", call, short(old), short(nw), k)
+	rn.res.Case("fsize "+key, fo.hit)
+	rn.res.Count("shortwrite:" + call)
+	if fo.hit {
+		rn.res.Count("shortwrite-hit:" + call)
+	}
+	in := map[string]string{"kind": "fsize", "call": call, "old": old, "new": nw, "k": fmt.Sprint(k)}
+	if fo.direct != "" {
+		rn.violate("impl-violation", call+"-short-write:"+fo.direct, "fsize "+call+" "+fo.direct,
+			fmt.Sprintf("%s with a write that stores %d byte(s) and then fails (RLIMIT_FSIZE, EFBIG): %s", call, k, fo.direct), fo.impl, fo.model, in)
+	}
+	if fo.model != "" && fo.model != fo.impl {
+		rn.violate("correspondence", "short-write-ops:"+call, "fsize-ops "+key,
+			"outcome / contents / system calls under the partial write differ from the model's short-write semantics", fo.impl, fo.model, in)
+	}
+	if k == 1 {
+		rn.res.Sample(map[string]any{"short-write": key, "impl": fo.impl, "model": fo.model})
+	}
+}
+
+func (rn *runner) fsizePhase() {
+	grow := [][2]string{{"616263", "5152535455565758"}, {"-", "515253545556"}, {"6162636465666768", "51525354555657585960616263"}}
+	for _, g := range grow {
+		d := len(common.UnHex(g[1])) - len(common.UnHex(g[0]))
+		for k := 0; k < d && k <= 6; k++ {
+			rn.fsizeOne("transform", g[0], g[1], k)
+		}
+	}
+	for _, w := range [][2]string{{"616263646566", "78797a7b7c"}, {"6162", "3031323334353637"}, {"-", "787978"}} {
+		n := len(common.UnHex(w[1]))
+		for k := 0; k < n && k <= 6; k++ {
+			rn.fsizeOne("write", w[0], w[1], k)
+			if k < 3 {
+				rn.fsizeOne("createwrite", w[0], w[1], k)
+			}
+		}
+	}
+}
+
 // ---------------------------------------------------------------- (c) histories
 
 func (rn *runner) histRound(mode string, procs, gor, iters int, seed uint64) bool {
@@ -274,6 +320,10 @@ func (rn *runner) runInput(in map[string]string) {
 		}
 	case "scenario":
 		rn.scenarioPhase([]string{in["name"]})
+	case "fsize":
+		if rn.st {
+			rn.fsizeOne(in["call"], in["old"], in["new"], atoi("k"))
+		}
 	case "mutexmisc":
 		rn.mutexPhase()
 	case "kmodel":
